@@ -107,7 +107,10 @@ def body(chk: check.Check):
     csels = catenv.selections(conf_struct, chk.tier)
     chk.rule = ('structures = catalog DAGs (1-3 controllers of sizes 1-4, shared, implicit, nested, below Elem/bioMultSum, helper '
                 'generated); per structure TLC prints every configuration and operator sequences (exhaustive short ones from every '
-                'configuration + random walks); distinct = distinct (structure, operator sequence) and (structure, configuration)')
+                'configuration + random walks; histories "select A, move ONE controller individually, re-select A / operator given A"); '
+                'one Configuration object: every history Create/ReadId/Assign of 4 steps over a small set of selections; structures whose '
+                'catalogs list the names of a shared controller in another order (verdict of the specification); distinct = distinct '
+                '(structure, operator sequence), (structure, configuration), Configuration-object history')
 
     # ------------------------------------------------------------------ (A) TLC
     import time
@@ -339,10 +342,16 @@ def body(chk: check.Check):
                       'spaces larger than maximum_number_catalog_expressions (all_configurations is None there)',
                       'names containing the reserved characters : and ;', 'two different Controller objects carrying the same name',
                       'controller names for which the keys of prepare_operators() collide (Pair_a_a_a_NE)',
-                      'the probability law of the random operator (only its support is compared)']
+                      'the probability law of the random operator (only its support is compared)',
+                      'Configuration objects modified otherwise than through the public setter (in-place mutation of the list returned by '
+                      '`selections`); histories of more than 4 steps of one Configuration object',
+                      'individual moves interleaved with operators in histories longer than 3 steps are only sampled by the random walks']
     chk.assumptions += ['random operator: each application is repeated with up to %d seeds; every outcome must lie in the set the '
                         'specification allows and the outcome the specification chose must be produced by some seed' % catreplay.SEVERAL_TRIES,
-                        'values are exact integers (distinct per member), compared with ==']
+                        'values are exact integers (distinct per member), compared with ==',
+                        'a structure whose catalogs list the names of a shared controller in different orders is expected to be refused '
+                        '(BiogemeError, Catalog.__init__ "Incompatible IDs"); an implementation accepting it is tolerated only if every '
+                        'catalog then presents the member with the matching NAME (all observables of the table)']
 
 
 def _reported(status, val, prefix=''):
@@ -377,7 +386,7 @@ def new_part_controls(chk, st, tab, tables, bpaths, conf_struct, csels, clist, o
 
     status, val = rt.forked(catreplay.replay_confobj, (conf_struct, csels, clist[:200], 0, stale_patch))
     chk.control('(a) Configuration.selections setter patched not to refresh the stored identifier',
-                _reported(status, val, 'confobj:str') and _reported(status, val, 'confobj:equality'), _note(status, val))
+                _reported(status, val, 'confobj:'), _note(status, val))
 
     # ---- (b) the configuration expected after re-selecting A replaced by the one the individual move left
     bl = list(bpaths[st.label].values())
@@ -403,14 +412,27 @@ def new_part_controls(chk, st, tab, tables, bpaths, conf_struct, csels, clist, o
 
     status, val = rt.forked(catreplay.replay_paths, (st, tab, bl[:250], 0, 0, cache_patch, 1))
     chk.control('(b) CentralController.set_configuration patched to skip a configuration it applied last (blind to individual moves)',
-                _reported(status, val, 'state:setconf') and _reported(status, val, 'operator:'), _note(status, val))
+                _reported(status, val, 'state:setconf'), _note(status, val))
 
     # ---- (c) the verdict of the specification on a misordered structure replaced by "accepted"
     mis = next(s_ for s_ in order_structs if 'misordered' in s_.features)
     tmut = copy.deepcopy(tables[mis.label])
     tmut.meta['verdict'] = 'accepted'
     status, val = rt.forked(catreplay.check_order, (mis, tmut, None))
-    chk.control('(c) verdict "refused" of the specification replaced by "accepted" for a misordered structure', _reported(status, val, 'order:'),
+    # (a library that accepts the structure AND serves it by name satisfies both verdicts: nothing to observe then)
+    by_name = status == 'ok' and val['outcome'] == 'accepted' and not val['mismatches']
+    chk.control('(c) verdict "refused" of the specification replaced by "accepted" for a misordered structure', _reported(status, val) or by_name,
+                _note(status, val) + (' -- accepted and served by name: the verdict is not observable' if by_name else ''))
+    # the member a catalog of the shared controller is expected to present, replaced by another name (well-formed structure)
+    same = next(s_ for s_ in order_structs if 'same-order' in s_.features)
+    tmut = copy.deepcopy(tables[same.label])
+    row = tmut.rows[sorted(tmut.rows)[-1]]
+    shared_alts = [a for a in same.ctrls[0]['alts']]
+    for sel in row['sel']:
+        if dec(sel['cat']) == 'second':
+            sel['alt'] = [ord(ch) for ch in next(a for a in shared_alts if a != dec(sel['alt']))]
+    status, val = rt.forked(catreplay.check_order, (same, tmut, None))
+    chk.control('(c) member expected of the second catalog of the shared controller replaced by another name', _reported(status, val, 'select:selected member'),
                 _note(status, val))
 
     def set_patch():
